@@ -30,6 +30,9 @@ def _blocks():
     B['s2u@4'] = [(sp(4) + '>>> print(1,', 'prompt'), (sp(4) + '...       2)', 'cont')]
     B['sstrd@4'] = [(sp(4) + ">>> s = '''a", 'prompt'), (sp(4) + "... b'''", 'cont')]
     B['sstr@4'] = [(sp(4) + ">>> s = '''", 'prompt'), (sp(4) + '    inner', 'inner'), (sp(4) + "    '''", 'inner')]
+    # a string literal whose un-prompted inner lines start in the column of the prompt itself (and not with blanks): the parser
+    # hands such a line back with an explicit '... ' in front; everything behind the prompt column is content
+    B['sstrp@4'] = [(sp(4) + ">>> s = '''", 'prompt'), (sp(4) + '+--+', 'innerp'), (sp(4) + "+'''", 'innerp')]
     B['w1@4'] = [(sp(4) + 'out1', 'other')]
     B['w2@4'] = [(sp(4) + 'out1', 'other'), (sp(4) + '  out2', 'other')]
     B['w1t@4'] = [(sp(4) + 'out1   ', 'other')]          # a want line ending in blanks
@@ -45,7 +48,7 @@ def _blocks():
 
 BLOCKS = _blocks()
 NAMES = ['s1@4', 'w1@4', 'blank', 'prose@4', 'prose@0', 'prose@8', 'tag@4', 's1@0', 's1@8', 's2@4', 's2d@4',
-         's2dt@4', 'sstr@4', 'w2@4', 'w1@8', 'wdots@4', 'tabs1', 'tabw', 's2u@4', 'sstrd@4', 'w1t@4', 'wdots2@4']
+         's2dt@4', 'sstr@4', 'w2@4', 'w1@8', 'wdots@4', 'tabs1', 'tabw', 's2u@4', 'sstrd@4', 'w1t@4', 'wdots2@4', 'sstrp@4']
 assert set(NAMES) == set(BLOCKS)
 DEFAULT = {'s1@4', 'w1@4', 'blank', 'prose@4'}
 
@@ -61,14 +64,15 @@ def label_lines(blocks):
             ln = ln.expandtabs()
             ind = len(ln) - len(ln.lstrip())
             flag = None
-            if kind in ('prompt', 'cont', 'inner'):
+            if kind in ('prompt', 'cont', 'inner', 'innerp'):
                 lab = 'src'
                 if kind == 'prompt' and first and prev in ('prompt', 'cont') and ind != src_indent:
                     # a prompt at another indentation directly under source (finding F8)
                     flag = 'deeper' if ind > src_indent else 'shallower'
                 if kind == 'prompt' and first and (prev in ('text', 'want') or flag):
                     src_indent = ind
-                newprev = 'cont' if kind == 'cont' else 'prompt'
+                # an un-prompted line in the prompt column is turned into an explicit '... ' continuation line
+                newprev = 'cont' if kind in ('cont', 'innerp') else 'prompt'
             elif kind == 'dotsline' and prev in ('prompt', 'cont') and ind >= src_indent:
                 lab = 'src'
                 newprev = 'cont'
@@ -85,7 +89,7 @@ def label_lines(blocks):
             else:
                 lab = 'text'
                 newprev = 'text'
-            out.append((ln, lab, flag, src_indent if lab != 'text' else None))
+            out.append((ln, lab, flag, src_indent if lab != 'text' else None, kind))
             prev = newprev
             first = False
     return out
@@ -131,19 +135,19 @@ class LabelSpec(Spec):
         for name in hist:
             raw += [ln for ln, _ in BLOCKS[name]]
         doc = '\n'.join(raw)
-        exp_lines = [l for l, _, _, _ in labelled]
+        exp_lines = [x[0] for x in labelled]
         # common de-indentation of non-blank lines
         inds = [len(l) - len(l.lstrip()) for l in exp_lines if l.strip()]
         m = min(inds) if inds else 0
         exp_lines = [l[m:] for l in exp_lines]
-        case = {'docstring': doc, 'labels': [lab for _, lab, _, _ in labelled]}
+        case = {'docstring': doc, 'labels': [x[1] for x in labelled]}
         nontrivial = 'src' in case['labels'] and any(
             lab != 'src' for lab in case['labels'][case['labels'].index('src'):])
         atoms = []
         try:
             parts = P.DoctestParser().parse(doc)
         except exceptions.DoctestParseError as ex:
-            flags = [f for _, _, f, _ in labelled if f]
+            flags = [x[2] for x in labelled if x[2]]
             if flags:
                 # consequence of a prompt at another indentation directly under source (F8): the
                 # mislabelled prompt leaves an unbalanced statement behind
@@ -168,7 +172,7 @@ class LabelSpec(Spec):
                 got += [(l, 'src', pi) for l in p.orig_lines]
                 got += [(l, 'want', pi) for l in (p.want_lines or [])]
         glabels = [g[1] for g in got]
-        elabels = [lab for _, lab, _, _ in labelled]
+        elabels = [x[1] for x in labelled]
         if len(got) != len(exp_lines):
             atoms.append({'sig': 'partition:line-count',
                           'msg': 'docstring has %d lines, parts hold %d' % (len(exp_lines), len(got))})
@@ -197,7 +201,7 @@ class LabelSpec(Spec):
                     ok = gl == el
                 else:
                     k = labelled[i][3] - m
-                    ok = (gl == el[k:]) or (not gl.strip() and not el.strip())
+                    ok = (gl == el[k:]) or (not gl.strip() and not el.strip()) or (labelled[i][4] == 'innerp' and gl == '... ' + el[k:])
                 if not ok:
                     atoms.append({'sig': 'partition:content', 'msg': 'line %d: docstring %r, part holds %r' % (i, el, gl)})
                     break
